@@ -313,19 +313,19 @@ def run(scn, mode="step", tap=True, events_mode="add", max_steps=None, outdir=No
                 sim.loop()
             else:
                 k = 0
+                stepped_crash = False
                 for _ in range(0, n, int(dt)):
                     if max_steps is not None and k >= max_steps:
                         break
-                    r = sim.next_step()
-                    sim.n_temporal_units_simulated = sim.current_temporal_unit
+                    r = sim.next_step()       # driven exactly as a user would: nothing else is touched
                     k += 1
                     if r == 1:
-                        sim.has_crashed = True
+                        stepped_crash = True
                         break
         finally:
             if t is not None:
                 res["steps"] = t.steps
-            res["crashed"] = bool(sim.has_crashed)
+            res["crashed"] = bool(sim.has_crashed) or bool(locals().get("stepped_crash"))
             res["n_steps"] = int(sim.current_temporal_unit)
             res["records"] = snap_records(sim)
             res["final"] = snap_econ(model)
